@@ -238,3 +238,10 @@ def _real_invariance(rng, n):
 
 Unit("C05", "relabelled and rotated systems give the same output [real code]", concrete=_real_invariance,
      bounded_desc="installed run() (CumDOS, AHC on a 3x2x2 grid) and evaluate_k (energies, Berry curvature at a random k) on 2 (quick) / 6 (thorough) random Hermitian 3-band systems: a random relabelling and a random U(2) rotation of two co-centred Wannier functions")
+
+
+
+# the eigenvector matrix every rotated / relabelled quantity goes through, with the random-gauge option (the degenerate columns are mixed, the
+# Wannier rows are not): C04's unit, registered here as well -- relabelling and co-centred rotations must commute with that option too
+from contracts.C04 import _uu_unit as _c04_uu      # noqa: E402
+_c04_uu(True, prop="C05")
